@@ -5,7 +5,7 @@ use crate::gens::proggen::{Preset, ProgCase};
 use crate::model::diff::Agreed;
 use crate::props::progdiff;
 
-pub const RULE: &str = "cases = generated programs (harness AST printed to VRL source; assignments to variables/event/metadata, if/else, blocks, all binary operators incl. `??`, `ok, err =`, arrays, objects, del, closures of for_each/filter/map_values/map_keys over objects and arrays) with `return e` injected at statement, block, branch, operand, array element, object member, right-hand side and closure-body positions, plus a generated event; each accepted program runs through the real compiler+runtime and through the harness's reference interpreter; outcome, value, final event, metadata and all variables must agree. Non-trivial = the reference executed a `return` (not dead code) and the program has side effects (so 'no later expression runs' is observable). Distinct = distinct serialised (program, event) cases. Rejected programs and programs the reference cannot evaluate are counted as discards.";
+pub const RULE: &str = "cases = generated programs (harness AST printed to VRL source; assignments to variables/event/metadata, if/else, blocks, all binary operators incl. `??`, `ok, err =`, arrays, objects, del, closures of for_each/filter/map_values/map_keys over objects and arrays and of replace_with over strings) with `return e` injected at statement, block, branch, operand, array element, object member, right-hand side and closure-body positions, plus a generated event; each accepted program runs through the real compiler+runtime and through the harness's reference interpreter; outcome, value, final event, metadata and all variables must agree. Non-trivial = the reference executed a `return` (not dead code) and the program has side effects (so 'no later expression runs' is observable). Distinct = distinct serialised (program, event) cases. Rejected programs and programs the reference cannot evaluate are counted as discards.";
 pub const NOTE: &str = "trusts the reference interpreter (model/interp.rs, ~600 lines) for control flow and scoping; values of plain stdlib calls are delegated to the real implementation (checked separately by C03/C21-C29); error message texts are not compared";
 
 fn classify(case: &ProgCase, a: &Agreed) -> (bool, Vec<&'static str>) {
